@@ -182,14 +182,25 @@ def _ones(shape, dtype=None):
 
 
 def replay_smm(d):
-    """Numeric replay of the prune step on the real class."""
+    return replay_mm(d, "smm")
+
+
+def replay_gpb1(d):
+    return replay_mm(d, "gpb1")
+
+
+def replay_mm(d, kind):
+    """Numeric replay of one update (likelihoods, Bayes step, pruning, closure) on the real class."""
     import warnings
 
     from resonaate.estimation.adaptive import adaptive_filter as AF
+    from resonaate.estimation.adaptive.gpb1 import GeneralizedPseudoBayesian1
     from resonaate.estimation.adaptive.smm import StaticMultipleModel
     from resonaate.estimation.adaptive.mmae_stacking_utils import eciStack
     from resonaate.estimation.sequential_filter import FilterFlag
+    from resonaate.physics import statistics as ST
 
+    StaticMultipleModel = StaticMultipleModel if kind == "smm" else GeneralizedPseudoBayesian1  # noqa: N806
     N = len(d["w"])
 
     class M:
@@ -213,7 +224,9 @@ def replay_smm(d):
     f.num_models = N
     f.model_weights = np.array(d["w"], dtype=float)
     f.model_likelihoods = np.ones(N)
-    f.mode_probabilities = np.ones(N) / N
+    f.mode_probabilities = np.array(d["mu"], dtype=float) if d.get("mu") else np.ones(N) / N
+    f.mix_ratio = 1.5
+    f._converged_filter = None
     f.prune_threshold, f.prune_percentage = d["thr"], d["pct"]
     f.stacking_method = eciStack
     f._flags = FilterFlag.ADAPTIVE_ESTIMATION_START
@@ -227,14 +240,27 @@ def replay_smm(d):
     f.maneuver_metric = None
     f.est_x = f.pred_x = np.zeros(2)
     f.true_y, f.nis = np.array([0.5]), 1.0
+    class Gate:  # the chi-square gate of the convergence test: open or closed as in the counterexample
+        @staticmethod
+        def isf(a, dof):
+            return 1e300 if d.get("gate_open", True) else -1.0
+
     with warnings.catch_warnings():
         warnings.simplefilter("ignore")
-        with np.errstate(all="ignore"):
+        with np.errstate(all="ignore"), shadow(ST, chi2=Gate):
             f.update(["obs"])
     w = np.asarray(f.model_weights, dtype=float)
     bad = (not np.all(np.isfinite(w))) or np.any(w < 0) or abs(w.sum() - 1) > 1e-9 or len(f.models) < 1 or len(w) != len(f.models)
     bad = bad or not np.all(np.isfinite(np.asarray(f.est_x, dtype=float)))
-    return bool(bad), {"weights_after": w.tolist(), "models_left": len(f.models), "est_x": np.asarray(f.est_x, dtype=float).tolist()}
+    detail = {"weights_after": w.tolist(), "models_left": len(f.models), "est_x": np.asarray(f.est_x, dtype=float).tolist()}
+    if f._converged_filter is not None:
+        kw = f._converged_filter.kw
+        detail["closed_with_models"] = len(f.models)
+        single = len(f.models) == 1 and np.allclose(np.asarray(kw["est_x"], dtype=float), f.models[0].est_x) and np.allclose(np.asarray(kw["est_p"], dtype=float), f.models[0].est_p)
+        if kind == "smm" and d["pct"] > 0.5 and not single:
+            bad = True
+            detail["closure"] = "the filter handed back is not the single surviving model"
+    return bool(bad), detail
 
 
 def o_mm(rep, kind, N):
@@ -257,18 +283,19 @@ def o_mm(rep, kind, N):
             e = [mfloat(m, x.t) for x in es]
             dd = [mfloat(m, x.t) for x in ds]
             nis = [(-2 * math.log(x) if x > 0 else 1e6) for x in e]
-            return {"w": [mfloat(m, z3.Real(f"w_{i}")) for i in range(N)], "nis": nis, "det": dd, "thr": mfloat(m, z3.Real("thr")), "pct": mfloat(m, z3.Real("pct"))}
+            return {"w": [mfloat(m, z3.Real(f"w_{i}")) for i in range(N)], "mu": [mfloat(m, z3.Real(f"mu_{i}")) for i in range(N)], "nis": nis, "det": dd,
+                    "thr": mfloat(m, z3.Real("thr")), "pct": mfloat(m, z3.Real("pct")), "gate_open": True}
 
         # (0) every divisor is non-zero / every sqrt argument non-negative when it is reached
         for k, (c, hyp) in enumerate(r.path.domain_obligations()):
-            rep.prove(f"{tag}-finite{k}", c, hyp, inputs=inputs, replay=replay_smm if kind == "smm" else None,
+            rep.prove(f"{tag}-finite{k}", c, hyp, inputs=inputs, replay=replay_smm if kind == "smm" else replay_gpb1,
                       sample="divisor != 0 (weights stay finite) at the point where the division happens")
         cons = r.constraints
         # (1) invariant after the whole update (incl. pruning)
         wf = f.model_weights
         goals = [z3.And(*[_tr(x) >= 0 for x in wf]), _approx(z3.Sum([_tr(x) for x in wf]), z3.RealVal(1)), z3.BoolVal(len(f.models) >= 1),
                  z3.BoolVal(len(wf) == len(f.models) == len(f.model_likelihoods) == len(f.mode_probabilities) == f.num_models)]
-        rep.prove(f"{tag}-invariant", z3.And(*goals), cons, inputs=inputs, replay=replay_smm if kind == "smm" else None,
+        rep.prove(f"{tag}-invariant", z3.And(*goals), cons, inputs=inputs, replay=replay_smm if kind == "smm" else replay_gpb1,
                   sample="after update+prune: weights >= 0, sum to one, >= 1 model, all per-model arrays of equal length")
         # (2) Bayes' rule at the first compile (before pruning)
         s0 = snaps[0]
@@ -310,13 +337,17 @@ def o_mm(rep, kind, N):
             closed += 1
             kw = f._converged_filter.kw
             g = [z3.BoolVal(len(f.models) >= 1)]
+            # with a convergence percentage above one half at most one model can have reached it: exactly that model survives
+            # (static multiple model only: GPB1 merges its models every step and hands back the merged estimate by design)
+            if kind == "smm":
+                g.append(z3.Or(z3.Real("pct") <= rv(0.5), z3.BoolVal(len(f.models) == 1)))
             if len(f.models) == 1:
                 g += [_tr(kw["est_x"][c]) == f.models[0].est_x[c].t for c in range(2)]
                 g += [_tr(kw["est_p"][a, b]) == _tr(f.models[0].est_p[a, b]) for a in range(2) for b in range(2)]
             from resonaate.estimation.sequential_filter import FilterFlag
 
             g.append(z3.BoolVal(FilterFlag.ADAPTIVE_ESTIMATION_CLOSE in f.flags and FilterFlag.ADAPTIVE_ESTIMATION_START not in f.flags))
-            rep.prove(f"{tag}-closure", z3.And(*g), cons, timeout_ms=60000, sample="on closure the filter handed back carries the surviving model's estimate; flags START->CLOSE")
+            rep.prove(f"{tag}-closure", z3.And(*g), cons, timeout_ms=60000, inputs=inputs, replay=replay_smm if kind == "smm" else replay_gpb1, sample="on closure the filter handed back carries the surviving model's estimate; flags START->CLOSE")
     if n == 0:
         rep.error("reach", "no path")
     rep.note(f"paths with closure: {closed}")
